@@ -627,6 +627,7 @@ pub enum LoweringDiagnosticKind {
     UndefinedRef { name: Key },
     UndefinedLabel { name: Key },
     NonGlobalExternFunc,
+    GlobalWithoutValue,
     InvalidEscape,
     TooManyCharsInCharLiteral,
     EmptyCharLiteral,
@@ -804,8 +805,11 @@ impl<'a> Ctx<'a> {
         is_extern: bool,
         expr: Option<ast::Expr>,
     ) {
-        let name = match name_token {
-            Some(ident) => Name(self.interner.intern(ident.text(self.tree))),
+        let (name, name_range) = match name_token {
+            Some(ident) => (
+                Name(self.interner.intern(ident.text(self.tree))),
+                ident.range(self.tree),
+            ),
             None => return,
         };
 
@@ -829,6 +833,15 @@ impl<'a> Ctx<'a> {
         if is_extern {
             self.bodies.global_externs.insert(name);
             return;
+        }
+
+        // `foo : i32;` is a default-initialised variable inside a function, but a global is
+        // immutable and has nothing to be initialised by
+        if expr.is_none() && self.bodies.global_tys.contains_key(&name) {
+            self.diagnostics.push(LoweringDiagnostic {
+                kind: LoweringDiagnosticKind::GlobalWithoutValue,
+                range: name_range,
+            });
         }
 
         let body = match expr {
